@@ -17,6 +17,7 @@ PROPS = "QuriVerif.Props.C10"
 GENMOD = "QuriVerif.Generated.C10Tables"
 ENTRY = "DriverC10.lean"
 LEAN_TARGETS = [PROPS, "QuriVerif.Driver.C10"]
+LEAN_TARGETS_THOROUGH = ["QuriVerif.Props.C10Deep"]
 
 KEY_F6 = "combine-duplicates-shared-in-params"
 F6_TEXT = ("LinearParameterMapping.combine concatenates in_params without de-duplication: for a circuit `sub` with one "
@@ -675,7 +676,7 @@ def compare_batch(ctx: Ctx, batch, what="history"):
         ctx.case(line, nontrivial, sample={"request": line[:400], "model": r[:300]})
         d = first_diff(rc, mc)
         if d:
-            small_o, small_q = shrink(ctx, op_strs, queries)
+            small_o, small_q = shrink(ctx, op_strs, queries) if len(ctx.disagreements) < 3 else (op_strs, queries)
             ctx.disagree(what, {"request": request_line(small_o, small_q), "ops": small_o, "queries": small_q},
                          f"real differs at {d}"[:600], r[:600])
 
